@@ -289,8 +289,74 @@ def check_attributes():
         bad(f"space_unroll(shots=2) then run: {type(e).__name__}: {e}", "F32")
 
 
+def _loop_programs(delays, amp, bs):
+    """the same multi-loop single-band experiment as a TDMProgram and written out by hand (fresh mode per pulse:
+    the pulse at register position r in time bin t is mode t + r)"""
+    T = len(amp)
+    cum = np.cumsum([1] + list(delays))
+    N = int(cum[-1])
+    pos = [N - int(c) for c in cum]                       # source, loop outputs ..., detector (0)
+    tdm = sf.TDMProgram(N)
+    with tdm.context(amp, *bs) as (p, q):
+        ops.Dgate(p[0], 0) | q[pos[0]]
+        for i in range(len(delays)):
+            ops.BSgate(p[i + 1], 0) | (q[pos[i + 1]], q[pos[i]])
+        ops.MeasureHomodyne(0) | q[0]
+    hand = sf.Program(T + N - 1)
+    with hand.context as q:
+        for t in range(T):
+            ops.Dgate(amp[t], 0) | q[t + pos[0]]
+            for i in range(len(delays)):
+                ops.BSgate(bs[i][t], 0) | (q[t + pos[i + 1]], q[t + pos[i]])
+    return tdm, hand
+
+
+def check_crop():
+    """(e) cropping: get_delays() are the loop lengths; get_crop_value() is the number of detected pulses that carry no
+    light of any input pulse in the hand-written loop; a run with crop=True returns exactly the remaining pulses, entry
+    k being the outcome of detected pulse k + crop"""
+    layouts = [[2], [3], [1, 2], [2, 3]] + ([[1, 2, 4], [3, 2]] if tier != "quick" else [])
+    for delays in layouts:
+        T = sum(delays) + 8
+        zero_opts = [range(0, d + 3) for d in delays]
+        for zeros in itertools.product(*zero_opts):
+            EVAL[0] += 1
+            amp = [20.0 + 5.0 * t for t in range(T)]
+            bs = [[0.0] * z + [np.pi / 4] * (T - z) for z in zeros]
+            tdm, hand = _loop_programs(delays, amp, bs)
+            st = sf.Engine("gaussian").run(hand).state
+            mu = st.means()
+            nm = len(mu) // 2
+            energy = np.hypot(mu[:T], mu[nm:nm + T])
+            xmean = mu[:T]
+            lit = np.nonzero(energy > 1e-9)[0]
+            c_exp = int(lit[0]) if len(lit) else T
+            label = f"delays={delays}, leading identity bins per loop={list(zeros)}"
+            try:
+                if list(tdm.get_delays()) != list(delays):
+                    bad(f"{label}: get_delays() = {list(tdm.get_delays())}")
+                c = tdm.get_crop_value()
+            except Exception as e:
+                bad(f"{label}: get_crop_value raised {type(e).__name__}: {e}")
+                continue
+            if c != c_exp:
+                bad(f"{label}: get_crop_value() = {c}, in the hand-written loop the first {c_exp} detected pulses are vacuum and pulse {c_exp} carries light")
+                continue
+            np.random.seed(4321)
+            try:
+                res = sf.Engine("gaussian").run(tdm, shots=1, crop=True)
+            except Exception as e:
+                bad(f"{label}: run(crop=True) raised {type(e).__name__}: {e}")
+                continue
+            smp = res.samples
+            if smp.shape != (1, 1, T - c_exp):
+                bad(f"{label}: cropped samples have shape {smp.shape}, expected {(1, 1, T - c_exp)}")
+            elif not np.allclose(smp[0, 0], xmean[c_exp:], atol=8.0):
+                bad(f"{label}: entry k of the cropped samples is not the outcome of detected pulse k + {c_exp}: {np.round(smp[0, 0][:5], 1).tolist()} vs means {np.round(xmean[c_exp:][:5], 1).tolist()}")
+
+
 if __name__ == "__main__":
-    for f in (check_arrangement, check_equivalence, check_state_machine, check_attributes):
+    for f in (check_arrangement, check_equivalence, check_state_machine, check_attributes, check_crop):
         try:
             f()
         except Exception:
